@@ -124,6 +124,7 @@ structure St where
   live : Bool        -- stateMgr.GetLiveNode(follower)
   susp : Bool        -- remoteReplicator.isSuspend
   parked : Bool      -- the replica loop is blocked in `<-r.suspend` (or about to: between the CAS and the receive)
+  closed : Bool      -- the follower partition the open stream's handler holds has been closed (and destroyed) under it
   dz : Bool          -- ghost: the OTHER follower's handshake moved this group (ResetAppendIndex) while this channel was ready
   stopped : Bool     -- the group is not registered on the leader (never created, or stopped by IsExpire): no replicator
   born : Bool        -- the group's directory exists on the leader
@@ -136,6 +137,7 @@ structure St where
   live2 : Bool
   susp2 : Bool
   parked2 : Bool
+  closed2 : Bool
   dz2 : Bool
   stopped2 : Bool
   born2 : Bool
@@ -148,9 +150,9 @@ group exists, follower B has not been added yet -/
 def St.init : St :=
   { L := Log.empty,
     cons := -1, gack := -1, F := Log.empty, chan := .init, stream := .none, live := true, susp := false, parked := false,
-    dz := false, stopped := false, born := true,
+    closed := false, dz := false, stopped := false, born := true,
     cons2 := -1, gack2 := -1, F2 := Log.empty, chan2 := .init, stream2 := .none, live2 := true, susp2 := false, parked2 := false,
-    dz2 := false, stopped2 := true, born2 := false,
+    closed2 := false, dz2 := false, stopped2 := true, born2 := false,
     imgs := [], gone := false }
 
 def Img.swap (i : Img) : Img :=
@@ -160,9 +162,9 @@ def Img.swap (i : Img) : Img :=
 def St.swap (s : St) : St :=
   { L := s.L,
     cons := s.cons2, gack := s.gack2, F := s.F2, chan := s.chan2, stream := s.stream2, live := s.live2,
-    susp := s.susp2, parked := s.parked2, dz := s.dz2, stopped := s.stopped2, born := s.born2,
+    susp := s.susp2, parked := s.parked2, closed := s.closed2, dz := s.dz2, stopped := s.stopped2, born := s.born2,
     cons2 := s.cons, gack2 := s.gack, F2 := s.F, chan2 := s.chan, stream2 := s.stream, live2 := s.live,
-    susp2 := s.susp, parked2 := s.parked, dz2 := s.dz, stopped2 := s.stopped, born2 := s.born,
+    susp2 := s.susp, parked2 := s.parked, closed2 := s.closed, dz2 := s.dz, stopped2 := s.stopped, born2 := s.born,
     imgs := s.imgs.map Img.swap, gone := s.gone }
 
 /-! ### follower side (app/storage/rpc/replica.go + partition.go) -/
@@ -255,7 +257,7 @@ def isReady (cfg : Cfg) (s : St) (f : Fault) : St × Bool :=
 def connect (s : St) (f : Fault) : St × Bool :=
   if s.stream ≠ .none then (s, true)
   else if f = .connect then ({ s with chan := .failure }, false)
-  else ({ s with stream := .up, chan := .ready }, true)
+  else ({ s with stream := .up, chan := .ready, closed := false }, true)   -- the new stream's handler resolves the current partition
 
 /-- what one event did -/
 inductive Out
@@ -276,10 +278,12 @@ inductive Out
 def replicaSend (cfg : Cfg) (s : St) (idx : Int) (m : Msg) (f : Fault) : St × Out :=
   if s.stream ≠ .up ∨ f = .send then ({ s with chan := .failure }, .sendfail)
   else
-    let (F', ackIdx) := replicaLog s.F idx m (decide (f = .put))   -- resp.ReplicaIndex = idx, resp.AckIndex = ackIdx
+    -- ReplicaLog on a closed partition: `return 0, ErrPartitionClosed` before anything else
+    let (F', ackIdx) := if s.closed then (s.F, 0) else replicaLog s.F idx m (decide (f = .put))   -- resp.ReplicaIndex = idx, resp.AckIndex = ackIdx
+    let respErr := s.closed || decide (f = .put ∧ idx = s.F.app + 1)   -- resp.Err is set
     let s := { s with F := F' }
     if f = .recv then ({ s with chan := .failure }, .recvfail)
-    else if ackIdx = idx then (ackGroup s ackIdx, .acked)
+    else if respErr = false ∧ ackIdx = idx then (ackGroup s ackIdx, .acked)   -- `resp.Err == "" && resp.AckIndex == resp.ReplicaIndex`
     else if cfg.mfail then ({ s with chan := .failure }, .mismatch)   -- repaired shape: force a handshake
     else ({ s with dz := true }, .mismatch)   -- state stays `ready`; ghost: the channel is out of step until the next handshake
 
@@ -361,6 +365,8 @@ inductive Ev
   | online (w : Who) (f : Fault) -- follower (re)appears; a parked loop resumes its replica call
   | steponl (w : Who) (f : Fault) -- a replica call that finds the follower offline and marks itself suspended, and the
                                   -- online notification arrives BEFORE the loop blocks on the receive
+  | fclose (w : Who)          -- the follower's partition is closed and destroyed under the leader's (possibly open) stream:
+                              -- the follower's WAL GC (writeAheadLog.destroy) or writeAheadLog.Close; a fresh empty partition serves later rpcs
   | join (w : Who)            -- BuildReplicaForLeader(leader, [w]): add follower w to the partition (or re-add it after IsExpire stopped it)
   | gc                        -- log.Sync(); log.Queue().GC() (IsExpire on a family inside its write window)
   | expire                    -- IsExpire on a family past its write window
@@ -386,6 +392,7 @@ def peerEv (cfg : Cfg) (s : St) : Ev → St × Out
     else if s.parked then (s, .suspended) else replicaStep cfg s f
   | .frestart _ => ({ s with stream := brokenStream s.stream }, .idle)
   | .flose _ => ({ s with F := Log.empty, stream := brokenStream s.stream }, .idle)
+  | .fclose _ => ({ s with F := Log.empty, closed := true, dz := true }, .idle)
   | .offline _ => ({ s with live := false }, .idle)
   | .join _ =>
     -- buildReplica: an existing replicator is kept; else GetOrCreateConsumerGroup + a new remoteReplicator.
@@ -420,6 +427,7 @@ def Ev.who : Ev → Option Who
   | .flose w => some w
   | .offline w => some w
   | .online w _ => some w
+  | .fclose w => some w
   | .steponl w _ => some w
   | .join w => some w
   | _ => none
